@@ -18,7 +18,7 @@ PID = "C08"
 STEPS = ["proximal_step", "inexact_gradient_step", "inexact_proximal_step", "exact_linesearch_step",
          "bregman_gradient_step", "bregman_proximal_step", "linear_optimization_step", "epsilon_subgradient_step"]
 OPTS = {"inexact_gradient_step": ["absolute", "relative"], "inexact_proximal_step": ["PD_gapI", "PD_gapII", "PD_gapIII"]}
-FNAMES = {0: "-", 1: "D1", 2: "D2", 3: "N1", 4: "N2", 5: "N3", 6: "S=D1+2N1", 7: "M=D1+D2/2", 8: "K=N2+2N3"}
+FNAMES = {0: "-", 1: "D1", 2: "D2", 3: "N1", 4: "N2", 5: "N3", 6: "S=D1+2N1", 7: "M=D1+D2/2", 8: "K=N2+2N3", 9: "Zc=(D1+N1)-N1"}
 
 
 def _cfg(depth, grid, init="Init", nxt="Next", invs=("Documented", "Fits", "Emit")):
